@@ -293,11 +293,19 @@ rt_cb_read(const RegisterArea *a, RegisterAtom *dst, RegisterOffset off, Registe
     return rv;
 }
 
+/* optional: what the device driver does on its own account when it is written (one-shot; a harness sets it) */
+static void (*rt_cb_write_hook)(void);
+
 static RegisterAccess
 rt_cb_write(RegisterArea *a, const RegisterAtom *src, RegisterOffset off, RegisterOffset n)
 {
     RegisterAccess rv = REG_ACCESS_RESULT_INIT;
     int idx = (int)(a - rt_cur->areas);
+    if (rt_cb_write_hook) {
+        void (*fn)(void) = rt_cb_write_hook;
+        rt_cb_write_hook = NULL;
+        fn();
+    }
     rt_cur->cb_writes++;
     if (idx < 0 || idx >= rt_cur->d.nareas || (uint64_t)off + n > rt_cur->d.area[idx].size) {
         rt_cur->cb_out_of_range = 1;
@@ -323,6 +331,9 @@ rt_cb_write(RegisterArea *a, const RegisterAtom *src, RegisterOffset off, Regist
 static int rt_val_last_idx = -1, rt_val_bad;
 static uint64_t rt_val_last_bits;
 static unsigned rt_val_calls;
+static int rt_val_peeking;
+
+static const char *rt_describe(const struct rt_desc *d);
 
 static bool
 rt_validator(const RegisterEntry *e, RegisterValue v)
@@ -336,6 +347,26 @@ rt_validator(const RegisterEntry *e, RegisterValue v)
             rt_val_bad = 1;
         rt_val_last_idx = (int)idx;
         rt_val_last_bits = rt_bits((int)v.type, v.value);
+        /* a validator may depend on other registers ("not below the current value of the register in front of
+         * me"); this one only looks: the register in front of its own, when that lies in plain memory, through
+         * register_get on the same table. Registers are linked and loaded in ascending order, so this works from
+         * the first moment a validator can be called - also while register_init() is loading defaults - and the
+         * answer is never "table not initialised". The verdict does not depend on what it sees. */
+        if (idx >= 1 && idx < rt_cur->d.nregs && rt_val_bad == 0 && !rt_val_peeking) {
+            const struct rt_reg *pr = &rt_cur->d.reg[idx - 1];
+            int pa = rt_area_of(&rt_cur->d, pr->addr);
+            if (pa >= 0 && !rt_cur->d.area[pa].custom && rt_cur->d.area[pa].readable && rt_cur->entries[idx - 1].area != NULL) {
+                RegisterValue pv;
+                rt_val_peeking = 1;
+                RegisterAccess ra = register_get(&rt_cur->t, (RegisterHandle)(idx - 1), &pv);
+                rt_val_peeking = 0;
+                VH_COUNT("validator looks at the register in front of its own");
+                if (ra.code == REG_ACCESS_UNINITIALISED)
+                    vh_fail("validator-sees-uninitialised-table", "monitor=validator",
+                            "table{%.150s}: validator of register %ld: register_get(%ld) on the same table answers 'uninitialised'",
+                            rt_describe(&rt_cur->d), idx, idx - 1);
+            }
+        }
     }
     return rt_cb_pred((int)v.type, kind, v.value) != 0;
 }
